@@ -117,6 +117,26 @@ CHECKS = {
              "process is sampled (fresh-process runs), not proved.",
         technique="Lean 4 proof about the CLI/compile model + fresh-process differential runs across entry points and hash seeds",
         design="6 C13"),
+    "C14": dict(
+        text="Partial. Lean `checker_tables_sound` / `checker_tables_progress` (decide +kernel over tables regenerated by running the "
+             "real checker and the real abstract classes, T5): for every operator application (+ - * unary, six comparisons, if_else) "
+             "over every combination of Nada classes, a class inferred by the checker is exactly the class abstract execution yields, "
+             "and it does not raise. Whole-program preservation/progress (assignments, lists, loops, comprehensions, helper functions) "
+             "is decided by an instrumented run: generated programs are checked, then executed under nada_dsl.audit with every typed "
+             "expression recorded, and inferred type vs bound value compared.",
+        note="Trusted: Lean kernel, T5 (exhaustive evaluation through the real checker on one-line programs). No Lean model of the whole "
+             "checker / evaluator: preservation for compound programs is sampled, not proved.",
+        technique="Lean 4 proof by kernel evaluation over regenerated checker/abstract tables + instrumented abstract execution",
+        design="6 C14"),
+    "C15": dict(
+        text="Lean `abstract_accepts_when_real` (decide +kernel over two regenerated tables: T1 from the real classes, T5 from "
+             "nada_dsl.audit): for every modelled operator and every combination of integer/boolean operand classes, real acceptance "
+             "implies abstract acceptance with the class of the same name; exactness theorems for all Int values about the value-"
+             "propagation terms translated syntactically from abstract.py (arithmetic, negation, comparisons, the conditional). "
+             "Compositions and big values are run through both libraries and compared with exact integer evaluation (K5).",
+        note="Trusted: Lean kernel, T1/T5 (exhaustive evaluation), the syntactic translator, Py/Int.lean (K4-validated).",
+        technique="Lean 4 proof by kernel evaluation over regenerated tables + exactness over Int of translated terms",
+        design="6 C15"),
     "C16": dict(
         text="Partial. The fragments of the checker whose totality is not obvious — annotation resolution (no eval: the result type has "
              "no 'executed' outcome), unification and monomorphism tests on type terms including error values, the subscript-target loop, "
